@@ -43,11 +43,10 @@ impl<'i, 't, 'a> StepParser<'i, 't, 'a> {
     pub(crate) fn peek_including_whitespace(
         &mut self,
     ) -> Result<StepToken<'i>, BasicParseError<'i>> {
-        let position = self.position();
         let state = self.parser.state();
-        let ret = self.parser.next_including_whitespace().map(|x| x.clone());
+        let ret = self.next_including_whitespace();
         self.parser.reset(&state);
-        ret.map(|token| StepToken { token, position })
+        ret
     }
 
     pub(crate) fn next(&mut self) -> Result<StepToken<'i>, BasicParseError<'i>> {
@@ -58,9 +57,18 @@ impl<'i, 't, 'a> StepParser<'i, 't, 'a> {
     pub(crate) fn next_including_whitespace(
         &mut self,
     ) -> Result<StepToken<'i>, BasicParseError<'i>> {
-        let position = self.position();
-        let token = self.parser.next_including_whitespace().map(|x| x.clone())?;
-        Ok(StepToken { token, position })
+        // skip comments here, so that the position is the one of the token itself
+        loop {
+            let position = self.position();
+            let token = self
+                .parser
+                .next_including_whitespace_and_comments()
+                .map(|x| x.clone())?;
+            if let Token::Comment(_) = token {
+                continue;
+            }
+            return Ok(StepToken { token, position });
+        }
     }
 
     pub(crate) fn try_parse<F, T, E>(&mut self, thing: F) -> Result<T, E>
